@@ -434,6 +434,14 @@ func (c *Ctx) xdecrypt(k xKey, ls []xLayer, expect []byte, tag string) {
 	} else if expect != nil && impl != "ok "+encBytes(expect) {
 		orc = "key=xmlenc-roundtrip:" + tag + " expected the plaintext back, got " + impl
 	}
+	// an RSA-wrapped key whose embedded certificate is not the supplied key's must be refused, whatever the ciphertext
+	if orc == "" && k.kind == "r" && strings.HasPrefix(impl, "ok") {
+		for _, l := range ls {
+			if l.alg != nil && strings.Contains(*l.alg, "rsa") && l.cert != "" && l.certTok(k.id) != "+ 1" {
+				orc = "key=c11-cert-mismatch-accepted decryption succeeded although the EncryptedKey names a certificate (" + l.cert + ") that does not belong to the supplied key"
+			}
+		}
+	}
 	toks := joinToks(k.toks(), []string{fmt.Sprint(len(ls))})
 	for _, l := range ls {
 		toks = append(toks, l.toks(k.id)...)
